@@ -159,11 +159,11 @@ def r4(ctx: Ctx) -> None:
         ctx.check(not bad, f, f.node, f"{q} does not test whether the market is running", "no decision on is_running", bad[0] if bad else "none")
 
 
-@rule("C16.H1", "mechanism shared with C13: the after-execution hook (where the halt is decided) runs after every fill in both phases", "T4/T5 (same rule as C13.R3)", floor=8)
+@rule("C16.H1", "mechanism shared with C13: the after-execution hook (where the halt is decided) runs after every fill in both phases", "T4/T5 (the after-execution part of C13.R3)", floor=1)
 def h1(ctx: Ctx) -> None:
-    from .c13 import r3 as order_rule
+    from .c13 import check_call_sites
 
-    order_rule(ctx)
+    check_call_sites(ctx, {"execution"})
 
 
 @rule("C16.H2", "mechanism shared with C09: the halt rule resumes exactly the session it suspended (suspension marker typestate)", "typestate (same rule as C09.R3)", floor=8)
